@@ -118,6 +118,7 @@ class Acc:
 def _task(args):
     kind = args[0]
     try:
+        purge_gcmpy()  # a pool worker runs several tasks: each starts from a freshly imported library
         if kind == "hyp":
             return _run_hyp(*args[1:])
         return _run_enum(*args[1:])
